@@ -80,6 +80,8 @@ fn gamma(a: f64) -> f64 {
 
 pub fn eval(expr: Node) -> Result<f64, Box<dyn error::Error>> {
     use self::Node::*;
+    #[cfg(feature = "verif_hooks")]
+    crate::verif_hooks::tick(crate::verif_hooks::Site::EvalEnter);
     match expr {
         Number(i) => Ok(i),
         Add(expr1, expr2) => Ok(eval(*expr1)? + eval(*expr2)?),
@@ -98,6 +100,8 @@ pub fn eval(expr: Node) -> Result<f64, Box<dyn error::Error>> {
                 } else {
                     let mut factorial_result = 1.0;
                     for i in 2..=(sub_result as usize) {
+                        #[cfg(feature = "verif_hooks")]
+                        crate::verif_hooks::tick(crate::verif_hooks::Site::EvalLoop);
                         factorial_result *= i as f64;
                     }
                     Ok(factorial_result)
@@ -117,6 +121,8 @@ pub fn eval(expr: Node) -> Result<f64, Box<dyn error::Error>> {
             let iterations = (4).max((sub_expr.log10() / 3.0).ceil() as i32);
             let mut w: f64 = 0.0;
             for _ in 0..iterations {
+                #[cfg(feature = "verif_hooks")]
+                crate::verif_hooks::tick(crate::verif_hooks::Site::EvalLoop);
                 let exp_w = w.exp();
                 w -= (w * exp_w - sub_expr)
                     / (exp_w * (w + 1.0) - (w + 2.0) * (w * exp_w - sub_expr) / (2.0 * w + 2.0));
@@ -128,6 +134,8 @@ pub fn eval(expr: Node) -> Result<f64, Box<dyn error::Error>> {
             let b = eval(*expr2)?;
             let mut x: f64 = 0.0;
             while n > 1.0 {
+                #[cfg(feature = "verif_hooks")]
+                crate::verif_hooks::tick(crate::verif_hooks::Site::EvalLoop);
                 x += 1.0;
                 n = (n.log10() / b.log10()).floor();
             }
@@ -161,6 +169,8 @@ pub fn eval(expr: Node) -> Result<f64, Box<dyn error::Error>> {
             if args.len() > 1 {
                 let mut result = f64::INFINITY;
                 for arg in <Vec<Node> as Clone>::clone(&args).into_iter() {
+                    #[cfg(feature = "verif_hooks")]
+                    crate::verif_hooks::tick(crate::verif_hooks::Site::EvalLoop);
                     result = eval(arg).unwrap().min(result);
                 }
                 Ok(result)
@@ -175,6 +185,8 @@ pub fn eval(expr: Node) -> Result<f64, Box<dyn error::Error>> {
             if args.len() > 1 {
                 let mut result = f64::NEG_INFINITY;
                 for arg in <Vec<Node> as Clone>::clone(&args).into_iter() {
+                    #[cfg(feature = "verif_hooks")]
+                    crate::verif_hooks::tick(crate::verif_hooks::Site::EvalLoop);
                     result = eval(arg).unwrap().max(result);
                 }
                 Ok(result)
@@ -188,6 +200,8 @@ pub fn eval(expr: Node) -> Result<f64, Box<dyn error::Error>> {
         Avg(args) => {
             let mut result = 0.0;
             for arg in <Vec<Node> as Clone>::clone(&args).into_iter() {
+                #[cfg(feature = "verif_hooks")]
+                crate::verif_hooks::tick(crate::verif_hooks::Site::EvalLoop);
                 result += eval(arg).unwrap();
             }
             let len = args.len() as f64;
@@ -196,6 +210,8 @@ pub fn eval(expr: Node) -> Result<f64, Box<dyn error::Error>> {
         Med(args) => {
             let mut results = vec![];
             for arg in <Vec<Node> as Clone>::clone(&args).into_iter() {
+                #[cfg(feature = "verif_hooks")]
+                crate::verif_hooks::tick(crate::verif_hooks::Site::EvalLoop);
                 results.push(eval(arg).unwrap());
             }
             results.sort_by(|a, b| a.partial_cmp(b).unwrap());
